@@ -121,6 +121,9 @@ def _process_string_field_value(path: List[str], value: Any, current_type: Any, 
                 raise e
         return value
     elif token == 'O':
+        if value is None:
+            # null is a value of the Optional itself: there is nothing below it to convert
+            return None
         return _process_string_field_value(
             path=path,
             value=value,
